@@ -106,7 +106,8 @@ pub fn run(a: &Args) {
     // (secret, key and server id all different, so an argument mix-up at the call site is visible)
     let mock = crate::c12::SessionMock::start();
     for i in 0..(a.cases / 20).max(8) {
-        let id: String = rng.pick(&["", "passage", "srv-1"]).to_string();
+        // configured server ids of every length (the protocol's own field is limited to 20 characters, the setting is not)
+        let id: String = rng.pick(&["", "passage", "srv-1", "exactly-twenty-chars", "twenty-one-characters", "a-server-id-of-thirty-charact.", "lobby.eu-central-1.network.example.org/minecraft/java/production", "sérvér-ïd-with-ünïcödé-chäräctérs-ß"]).to_string();
         let secret = rng.bytes(16);
         let plen = if i % 2 == 0 { 162 } else { rng.range(1, 200) as usize };
         let public = rng.bytes(plen);
